@@ -20,7 +20,10 @@ SPEC = dict(
                 "assignment / isolation / duplication exactly as in /repo d1b6283 — is tied to the code on every run: arbitrary object DAGs are "
                 "compiled through the public FontWrite/TableWriter/dump_table API and the exact output bytes / PackingFailed / panic are compared "
                 "with the model's vm_compute result. No theorem covers the space-assignment path (there: byte-exact correspondence + an "
-                "implementation-only walker re-checking Resolves from the input description); GPOS/GSUB splitting/promotion: C16."),
+                "implementation-only walker re-checking Resolves from the input description). Splitting/promotion of real GPOS lookups (PairPos 1/2, "
+                "MarkBase > 64 KiB, every device-flag subset, null and non-null devices, under a custom root with sibling blobs swept across the 16-bit "
+                "boundary) is covered by an implementation-only readback oracle (no model, no theorem): never a panic, every record and every "
+                "device/VariationIndex offset of the input found where the declared formats put it."),
     level_note=("Trusted: Coq kernel; the hand-written model coq/C05/Model.v (agreement with write-fonts checked on every run, not proved); "
                 "the harness generator and its FontWrite implementation. Not proved: totality of the sorts (acyclic + reachable => no panic), "
                 "graph_hyps for store-built maps (checked per case by graph_hypsb), anything about duplicate/isolate preserving the unfolding."),
@@ -29,7 +32,7 @@ SPEC = dict(
               "write-fonts/src/graph.rs: ObjectStore::add, Graph::{from_obj_store, from_objects, update_parents, sort_kahn, update_distances, assign_space_0, sort_shortest_distance, has_overflows, basic_sort, pack_objects, serialize, assign_spaces_hb, find_space_roots_hb, find_subgraph_hb, find_connected_nodes_hb, isolate_subgraph_hb, find_subgraph_map_hb, duplicate_subgraph, find_overflows, try_isolating_subgraphs, find_root_of_space}, Node::modified_distance, Distance ordering, OffsetLen::max_value"],
     not_covered=["assign_spaces_hb, find_space_roots_hb, find_connected_nodes_hb, isolate_subgraph_hb, duplicate_subgraph, try_isolating_subgraphs: modelled (round 2) and compared byte-for-byte, but no theorem (duplicate_preserves / isolate_preserves not proved); implementation-only walker",
                  "totality of sort_shortest_distance (update_distances / assign_space_0 / obj_order do not panic): not proved — partial correctness only; sort_kahn is proved total (c05_kahn_order_topological)",
-                 "try_splitting_subtables / try_promoting_subtables (GPOS/GSUB lookups): left to C16",
+                 "try_splitting_subtables / try_promoting_subtables (GPOS/GSUB lookups): not modelled; implementation-only readback oracle for PairPos 1/2 and MarkBase splits (GSUB and other lookup types: C16)",
                  "adjust_offsets (name table): pub(crate), not reachable from generated graphs; F-5 witness on the model only (Examples.v c05_adjustment_underflow_refuted)",
                  ],
     assumptions=["Rust integer semantics as in coq/Lib/RustInt.v; BinaryHeap pops the maximum; BTreeMap iterates in key order",
